@@ -66,8 +66,11 @@ def gen_case(rng, idx):
     old = ajcheck.rand_old(rng, prog, leaves, 0.4)
     # some pre-existing .grad fields are views of one shared flat buffer
     shared_buf = [int(t) for t in old if rng.random() < 0.5]
+    shared_buf = shared_buf if len(shared_buf) >= 2 else []
+    strided = [int(t) for t in old if int(t) not in shared_buf and len(prog.shapes[int(t)]) >= 1
+               and rng.random() < 0.6]
     return {"id": idx, "prog": prog.to_json(), "history": hist, "old": old,
-            "shared_buf": shared_buf if len(shared_buf) >= 2 else []}
+            "shared_buf": shared_buf, "strided": strided}
 
 
 def to_call(op):
@@ -96,7 +99,17 @@ def run_real(case):
             off += n
     for t, vals in case["old"].items():
         if int(t) not in buf_keys:
-            ts[int(t)].grad = torch.tensor([float(v) for v in vals], dtype=torch.float64).reshape(prog.shapes[int(t)])
+            g = torch.tensor([float(v) for v in vals], dtype=torch.float64).reshape(prog.shapes[int(t)])
+            if int(t) in case.get("strided", []):
+                # a legal but unusual .grad: same values, NON-CONTIGUOUS memory layout (transposed
+                # storage for >= 2-d tensors, every second element of a larger buffer for 1-d ones)
+                if g.dim() >= 2:
+                    g = g.transpose(0, -1).contiguous().transpose(0, -1)
+                elif g.dim() == 1:
+                    big = torch.zeros(2 * g.numel(), dtype=torch.float64)
+                    big[::2] = g
+                    g = big[::2]
+            ts[int(t)].grad = g
     values_before = [x.detach().clone() for x in ts]
     pre_ids = {t: id(ts[t].grad) for t in range(prog.n()) if prog.is_leaf[t] and ts[t].grad is not None}
     n_backward = [0]
